@@ -1,10 +1,4 @@
 // Purity contracts of the unary operator functions (see opstubs.rs for the rationale).
-pub uninterp spec fn op_not(v: Variable) -> Variable;
-pub uninterp spec fn op_unary_minus(v: Variable) -> Variable;
-pub uninterp spec fn op_indirection(v: Variable) -> Variable;
-pub uninterp spec fn op_iter(v: Variable) -> Variable;
-pub uninterp spec fn op_sum(v: Variable) -> Result<Variable, ExecError>;
-pub uninterp spec fn op_product(v: Variable) -> Result<Variable, ExecError>;
 pub mod not { use super::*;
     #[verifier::external_body]
     pub fn exec(variable: Variable) -> (r: Variable) ensures r == op_not(variable) { unimplemented!() }
